@@ -329,6 +329,42 @@ func c14(c *an.Check) {
 	}
 	c.Sites(n)
 	c.Require(n >= 4, "CALLARG", "extra25519 conversion call sites found", conv, "", n, "call sites enumerated", "anchor drift: fewer than 4 call sites")
+	// the conversions return storage of their own: nothing they return aliases a buffer they have handed back to a pool,
+	// and (value, error) results are dereferenced only behind err == nil
+	var xfns []*ssa.Function
+	for _, f := range p.PkgFuncs("util/extra25519") {
+		if f.Parent() == nil {
+			xfns = append(xfns, f)
+		}
+	}
+	nRel := c.ReleasedNotReturned("OWNERSHIP", "extra25519: returned values do not alias released pool storage", xfns)
+	// the private-key conversion result is a fresh digest: produced by Sum(nil) (or another allocation), never by appending
+	// to shared storage
+	pk := p.Func("util/extra25519", "", "PrivateKeyToCurve25519")
+	okFresh, whyFresh := pk != nil, "unresolved anchor"
+	if pk != nil {
+		for _, call := range an.WithClosures(pk)[0].Blocks {
+			for _, ins := range call.Instrs {
+				cl, ok := ins.(*ssa.Call)
+				if !ok || !cl.Call.IsInvoke() || cl.Call.Method.Name() != "Sum" {
+					continue
+				}
+				fresh := true
+				for r := range an.AliasRoots(cl.Call.Args[0]) {
+					switch r.(type) {
+					case *ssa.Const, *ssa.MakeSlice, *ssa.Alloc, *ssa.Slice:
+					default:
+						fresh = false
+					}
+				}
+				if !fresh {
+					okFresh, whyFresh = false, "the digest is appended to caller-independent storage that outlives the call (Sum(b) with b from a pool, global or parameter): two conversion results alive at once overwrite each other"
+				}
+			}
+		}
+	}
+	c.Require(okFresh, "OWNERSHIP", "extra25519.PrivateKeyToCurve25519 returns a freshly allocated scalar", pk, "", 1+nRel, "digest = h.Sum(nil) or Sum into storage allocated in the call", whyFresh)
+	c.NilDerefGuard("NILDEREF", "extra25519: (value, error) results dereferenced only when err==nil", xfns, nil)
 	c.Trust("filippo.io/edwards25519 point decoding / Montgomery conversion", "math/big modular arithmetic used by the checker's own derivation")
 }
 
